@@ -79,6 +79,7 @@ type modelProbe struct {
 }
 
 type Unit struct {
+	wfSeen map[string]bool
 	liveDepth int
 	blkMarks []blkMark      // (item index, block of the top-level function) in emission order
 	curBlk   int            // block of the top-level function being executed (-1 before / outside)
@@ -318,6 +319,7 @@ func (u *Unit) fieldHeapName(structT types.Type, field int) (string, string, *So
 	sn := u.tc.structName(structT)
 	st := u.tc.structNames[sn]
 	fs := u.tc.sortOf(st.Field(field).Type())
+	u.eng.noteFieldHeap("H."+sn+"."+st.Field(field).Name(), sn, st.Field(field).Name())
 	u.eng.heapKinds["H."+sn+"."+st.Field(field).Name()] = fs.K
 	if fs.K == KStruct {
 		u.eng.heapStructs["H."+sn+"."+st.Field(field).Name()] = st.Field(field).Type()
